@@ -850,6 +850,15 @@ class Interp:
     def x_FunctionDef(self, s, env):
         sf = self.make_sfunc(s, env, s.name)
         v = sf
+        # a function defined inside a real function may be replaced by its contract (modular verification of
+        # inner functions): subst key "module:Outer.<locals>.name"
+        if not self.no_subst and self.subst:
+            key = f"{env.glob.get('__name__')}:{getattr(env, 'fname', None)}.<locals>.{s.name}"
+            if key in self.subst:
+                v = self.subst[key]
+                front.USED.setdefault("contract-of:" + key, {"function": key, "file": "(replaced by its contract)", "lines": [s.lineno, s.end_lineno], "sha256": ""})
+                env.store(s.name, v)
+                return
         for d in reversed(s.decorator_list):
             dec = self.eval(d, env)
             v = self.call(dec, [v], {})
